@@ -891,6 +891,7 @@ impl TransportFn<()> for WrapTx {
         let mut sent: u64 = 0;
         let target: u64 = (1u64 << 32) + (1 << 28) + choose(1 << 20);
         let mut tx_cnt: u32 = 0;
+        let mut refused_in_a_row = 0;
         while sent < target && !violated() {
             let n = (chunk - choose(4096) as usize).min((target - sent) as usize);
             for (k, b) in buf[..n].iter_mut().enumerate() {
@@ -904,6 +905,12 @@ impl TransportFn<()> for WrapTx {
                     violation("vsock-credit-exceeded", "send", format!("send of {n} bytes with {free} bytes of credit after {sent} bytes in total: {r:?}"));
                 }
                 probe("credit_request_sent");
+                refused_in_a_row += 1;
+                if refused_in_a_row > 4 {
+                    // (bounded liveness: the peer has granted its whole window each time)
+                    violation("vsock-send-never-accepted", "send", format!("the peer acknowledged everything and granted its whole window {refused_in_a_row} times in a row, yet a send of {n} bytes is still refused after {sent} bytes in total"));
+                    break;
+                }
                 // peer answers the credit request
                 peer_fwd = tx_cnt;
                 send_pkt(OP_CREDIT_UPDATE, peer_fwd);
@@ -924,6 +931,7 @@ impl TransportFn<()> for WrapTx {
                 }
             }
             sent += n as u64;
+            refused_in_a_row = 0;
             let before = tx_cnt;
             tx_cnt = tx_cnt.wrapping_add(n as u32);
             if tx_cnt < before {
@@ -975,7 +983,17 @@ impl TransportFn<()> for WrapRx {
             Ok(s) => s,
             Err(e) => return violation("vsock-new-failed", "new", format!("{e:?}")),
         };
-        let cap: u32 = 2 << 20;
+        // per-connection buffer capacity: a power of two, or not (ring-buffer positions must not
+        // depend on the capacity dividing 2^32)
+        let cap: u32 = match choose(4) {
+            0 => 2 << 20,
+            1 => 3 << 20,
+            2 => (2 << 20) + 4096 + choose(1 << 12) as u32,
+            _ => 1_500_001,
+        };
+        if !cap.is_power_of_two() {
+            probe("rx_capacity_not_power_of_two");
+        }
         let mut mgr: VsockConnectionManager<SimHal, T, BIG_RX> = VsockConnectionManager::new_with_capacity(sock, cap);
         let peer = (2u64, 77u32);
         let local = 5000u32;
@@ -1000,7 +1018,9 @@ impl TransportFn<()> for WrapRx {
         let mut read: u64 = 0;
         let mut out = vec![0u8; 1 << 20];
         let mut payload = vec![0u8; 1 << 20];
+        let mut stalled = 0;
         while read < target && !violated() {
+            let progress_mark = (peer_tx, read);
             // peer sends as much as the advertised credit allows, at most one buffer full
             let free = seen.0.saturating_sub((peer_tx as u32).wrapping_sub(seen.1));
             let n = (free as usize).min(1 << 20).min((target - peer_tx) as usize);
@@ -1053,6 +1073,12 @@ impl TransportFn<()> for WrapRx {
                     other => violation("vsock-packets", "update_credit", format!("{:?}", other.map(|p| p.op))),
                 },
                 Err(e) => violation("vsock-result", "update_credit", format!("{e:?}")),
+            }
+            // bounded liveness: with an honest peer and an application that keeps reading, every
+            // round moves bytes
+            stalled = if (peer_tx, read) == progress_mark { stalled + 1 } else { 0 };
+            if stalled > 4 && !violated() {
+                violation("vsock-stream-stalled", "recv", format!("no byte was sent or read in {stalled} consecutive rounds: peer sent {peer_tx}, application read {read}, last advertisement {seen:?}"));
             }
             op_point();
         }
